@@ -167,7 +167,21 @@ func enumB(thorough bool, samples *report.Samples) map[string]any {
 				for _, m := range msgs {
 					sizes = append(sizes, len(m.raw))
 				}
-				for _, source := range []string{"sender", "reference"} {
+				for _, source := range []string{"sender", "reference", "reference-bare"} {
+					msgs := msgs
+					if source == "reference-bare" {
+						ones, nf := 0, 0
+						for _, k := range shape {
+							nf += k
+							if k == 1 {
+								ones++
+							}
+						}
+						if ones == 0 || (!thorough && nf > 6) {
+							continue // no single-frame message in this class / quick tier: classes of up to 6 frames
+						}
+						msgs = msgsForSource(msgs, source)
+					}
 					// ---- frames
 					frames, pn := buildFrames(ctx0, mtu, msgs, source)
 					if pn != "" {
@@ -205,7 +219,7 @@ func enumB(thorough bool, samples *report.Samples) map[string]any {
 						}
 						for _, fi := range perm[:n] {
 							f := frames[fi]
-							if pn := safely("handleIncomingFrame", func() { face.VerifC10Recv(ctx.rcv, f) }); pn != "" {
+							if pn := safely("handleIncomingFrame", func() { recvReused(ctx, ctx.rcv, f) }); pn != "" {
 								addVio("C10.order", source+" frames: "+pn, base, mtu, int(i), pn, replay)
 								face.VerifC10ClearStore(ctx.rcv)
 								atomic.AddInt64(&bad, 1)
@@ -255,7 +269,9 @@ func enumB(thorough bool, samples *report.Samples) map[string]any {
 	}
 	return map[string]any{"orders": orders, "classes_run": classesRun, "classes_skipped": classesSkipped, "skipped": skipped,
 		"complete": complete, "mtus": mtus, "shapes_fragments_per_message": shapes, "last_fragment_classes": lasts,
-		"sources": []string{"sender (real sendPacket output)", "reference (harness-built NDNLPv2 frames)"}}
+		"sources": []string{"sender (real sendPacket output)", "reference (harness-built NDNLPv2 frames)",
+			"reference-bare (as reference, but a message that fits in one frame is sent as the bare Interest/Data without link-layer header, hence without token and mark; classes with a single-frame message" + map[bool]string{false: ", up to 6 frames", true: ""}[thorough] + ")"},
+		"receive_buffer": "every frame is handed to handleIncomingFrame in ONE receive buffer per receiver that is overwritten as soon as the call returns (as every transport does); deliveries are judged after all frames"}
 }
 
 // judgeOrder: every message delivered exactly once, byte-identical, with its token and mark; nothing else.
@@ -274,6 +290,9 @@ func judgeOrder(got []delivered, msgs []*bMsg) (symptom, detail string) {
 			}
 			if (m.mark == nil) != (g.pkt.CongestionMark == nil) || (m.mark != nil && *m.mark != *g.pkt.CongestionMark) {
 				return "congestion mark of a re-assembled message differs", fmt.Sprintf("message %d: sent %s delivered %s", j, ptrStr(m.mark), ptrStr(g.pkt.CongestionMark))
+			}
+			if want, have := l3Name(m.l3), l3Name(g.pkt.L3); !bytes.Equal(want, have) {
+				return "decoded form of a delivered message is not the packet that was sent (its bytes are)", fmt.Sprintf("message %d: name sent %s, name of the delivered packet object %s", j, hexHead(want, 24), hexHead(have, 24))
 			}
 			break
 		}
@@ -298,6 +317,36 @@ func judgeOrder(got []delivered, msgs []*bMsg) (symptom, detail string) {
 		}
 	}
 	return "", ""
+}
+
+// l3Name: the encoded name of a decoded Interest/Data (nil for anything else).
+func l3Name(p *spec.Packet) []byte {
+	switch {
+	case p == nil:
+		return nil
+	case p.Interest != nil:
+		return p.Interest.NameV.Bytes()
+	case p.Data != nil:
+		return p.Data.NameV.Bytes()
+	}
+	return nil
+}
+
+// msgsForSource: what the receiver must deliver for a frame source. "reference-bare" sends a
+// message that fits in one frame as the bare packet: no LpPacket, so no PIT token and no mark.
+func msgsForSource(msgs []*bMsg, source string) []*bMsg {
+	if source != "reference-bare" {
+		return msgs
+	}
+	out := make([]*bMsg, len(msgs))
+	for i, m := range msgs {
+		c := *m
+		if c.want == 1 {
+			c.tok, c.mark = nil, nil
+		}
+		out[i] = &c
+	}
+	return out
 }
 
 func firstDiff(a, b []byte) int {
@@ -352,6 +401,10 @@ func buildFrames(ctx *wctx, mtu int, msgs []*bMsg, source string) (frames [][]by
 	}
 	seq := uint64(1000)
 	for _, m := range msgs {
+		if source == "reference-bare" && m.want == 1 {
+			frames = append(frames, append([]byte{}, m.raw...))
+			continue
+		}
 		// as many fragments as wanted
 		ch := mtu - 60
 		if m.want > 1 {
@@ -370,7 +423,7 @@ func buildOrderClass(ctx *wctx, mtu int, shape, sizes []int, source string) ([]*
 	if len(shape) != len(sizes) || len(shape) == 0 {
 		return nil, nil, fmt.Errorf("replay: shape %v and sizes %v do not match", shape, sizes)
 	}
-	msgs := buildMsgs(shape, sizes)
+	msgs := msgsForSource(buildMsgs(shape, sizes), source)
 	frames, pn := buildFrames(ctx, mtu, msgs, source)
 	if pn != "" {
 		return nil, nil, fmt.Errorf("%s", pn)
